@@ -8,6 +8,7 @@ package main
 import (
 	"fmt"
 	"sort"
+	"strconv"
 	"strings"
 
 	redisemu "github.com/jimsnab/go-redisemu"
@@ -24,11 +25,41 @@ type linScenario struct {
 	setup   [][]string
 	threads [][][]string
 	seqMemo map[string]string
+	// phases[i]: the phase in which connection i starts; a phase starts when everything started
+	// before is finished or blocked (nil: all connections start together)
+	phases []int
+	// allowPending: a connection's last command may still be blocked at the end (blocking pops)
+	allowPending bool
+	// fifo: connections (indexes) in the order in which they blocked on the same key; an element
+	// must never go to a later one while an earlier one is still waiting
+	fifo []int
+	// timerAlts: a timer may fire although threads are runnable (costs one deviation)
+	timerAlts bool
+	// noLin: the sequential reference cannot express the scenario (a blocked command ended by
+	// another connection's command); conservation and the scenario's own oracles decide
+	noLin bool
+	// extra oracle
+	extra func(ls *linScenario, x *Exec, per [][]*Call) [][2]string
+	// ids of the connections' clients (CLIENT UNBLOCK / KILL arguments "$id<i>" are substituted)
 }
 
 func (ls *linScenario) scenario() *Scenario {
 	ls.seqMemo = map[string]string{}
-	return &Scenario{Name: ls.name, Body: ls.body, Check: ls.check}
+	return &Scenario{Name: ls.name, Body: ls.body, Check: ls.check, TimerAlts: ls.timerAlts}
+}
+
+// subst replaces $id<i> by the client id of connection i
+func subst(c []string, clients []*redisemu.VClient) []string {
+	out := make([]string, len(c))
+	for i, a := range c {
+		out[i] = a
+		if strings.HasPrefix(a, "$id") {
+			var n int
+			fmt.Sscanf(a, "$id%d", &n)
+			out[i] = fmt.Sprint(clients[n].ID())
+		}
+	}
+	return out
 }
 
 func (ls *linScenario) body(x *Exec) {
@@ -42,16 +73,59 @@ func (ls *linScenario) body(x *Exec) {
 	for i := range ls.threads {
 		clients[i] = vi.NewClient()
 	}
-	for i := range ls.threads {
-		i := i
-		verifrt.GoNamed(fmt.Sprintf("conn%d", i+1), func() {
-			for _, c := range ls.threads[i] {
-				x.do(i+1, clients[i], c...)
-			}
-		})
+	maxPhase := 0
+	for _, p := range ls.phases {
+		if p > maxPhase {
+			maxPhase = p
+		}
 	}
-	verifrt.AwaitQuiescence()
+	for ph := 0; ph <= maxPhase; ph++ {
+		for i := range ls.threads {
+			if ls.phases != nil && ls.phases[i] != ph {
+				continue
+			}
+			i := i
+			verifrt.GoNamed(fmt.Sprintf("conn%d", i+1), func() {
+				for _, c := range ls.threads[i] {
+					x.do(i+1, clients[i], subst(c, clients)...)
+				}
+			})
+		}
+		verifrt.AwaitQuiescence()
+	}
+	if x.Sched.QuiesceLivelock {
+		x.note("LIVELOCK: a thread is spinning in a sleep/retry loop while nothing else can run")
+	}
 	x.Final = dumpState(obs, []int{0, 1})
+	// which keys do the still-blocked commands wait on, and are those lists really empty?
+	for _, c := range x.Calls {
+		if c.Ret >= 0 || c.Thread == 0 {
+			continue
+		}
+		for _, k := range blockingKeys(c.Args) {
+			r, _ := vm.Parse1(obs.Do("LLEN", k))
+			if r.K == vm.KInt && r.I > 0 {
+				x.note("STUCK: connection %d is still blocked in %v although list %q holds %d element(s)", c.Thread, c.Args, k, r.I)
+			}
+		}
+	}
+}
+
+// blockingKeys: the keys a blocking list command waits on
+func blockingKeys(a []string) []string {
+	switch strings.ToUpper(a[0]) {
+	case "BLPOP", "BRPOP":
+		return a[1 : len(a)-1]
+	case "BLMOVE", "BRPOPLPUSH":
+		return a[1:2]
+	case "BLMPOP":
+		var n int
+		fmt.Sscanf(a[2], "%d", &n)
+		if 3+n <= len(a) {
+			return a[3 : 3+n]
+		}
+	}
+	return nil
 }
 
 // sequential outcome of one total order (list of (thread, index) pairs), computed on a fresh
@@ -75,11 +149,15 @@ func (ls *linScenario) sequential(order [][2]int) string {
 		for i := range ls.threads {
 			clients[i] = vi.NewClient()
 		}
+		cnt := make([]int, len(ls.threads))
+		for _, o := range order {
+			cnt[o[0]]++
+		}
 		for i := range replies {
-			replies[i] = make([]string, len(ls.threads[i]))
+			replies[i] = make([]string, cnt[i])
 		}
 		for _, o := range order {
-			r, err := vm.Parse1(clients[o[0]].Do(ls.threads[o[0]][o[1]]...))
+			r, err := vm.Parse1(clients[o[0]].Do(subst(ls.threads[o[0]][o[1]], clients)...))
 			if err != nil {
 				r = vm.Err("PARSE " + err.Error())
 			}
@@ -103,15 +181,52 @@ func (ls *linScenario) check(x *Exec) [][2]string {
 			per[c.Thread-1] = append(per[c.Thread-1], c)
 		}
 	}
-	for i := range per {
-		if len(per[i]) != len(ls.threads[i]) {
-			return [][2]string{{"command-never-issued", fmt.Sprintf("connection %d issued %d of %d commands (terminal %s)", i+1, len(per[i]), len(ls.threads[i]), x.Sched.Term)}}
+	var viol [][2]string
+	for _, n := range x.Notes {
+		if strings.HasPrefix(n, "STUCK:") {
+			viol = append(viol, [2]string{"waiter-stuck-on-nonempty-list", n})
 		}
-		for _, c := range per[i] {
-			if c.Ret < 0 {
-				return [][2]string{{"command-never-returned:" + strings.ToUpper(c.Args[0]), fmt.Sprintf("connection %d: %v did not return (terminal %s, parked %v)", i+1, c.Args, x.Sched.Term, x.Sched.Parked())}}
+		if strings.HasPrefix(n, "LIVELOCK:") {
+			viol = append(viol, [2]string{"livelock", n})
+		}
+	}
+	if !x.Finished {
+		viol = append(viol, [2]string{"scenario-did-not-finish", fmt.Sprintf("terminal %s, parked %v", x.Sched.Term, x.Sched.Parked())})
+		return viol
+	}
+	for i := range per {
+		if len(per[i]) > 0 && per[i][len(per[i])-1].Ret < 0 {
+			c := per[i][len(per[i])-1]
+			if !ls.allowPending || blockingKeys(c.Args) == nil {
+				return append(viol, [2]string{"command-never-returned:" + strings.ToUpper(c.Args[0]), fmt.Sprintf("connection %d: %v did not return (terminal %s, parked %v)", i+1, c.Args, x.Sched.Term, x.Sched.Parked())})
+			}
+			per[i] = per[i][:len(per[i])-1] // pending: took no effect
+		} else if len(per[i]) != len(ls.threads[i]) {
+			return append(viol, [2]string{"command-never-issued", fmt.Sprintf("connection %d issued %d of %d commands (terminal %s)", i+1, len(per[i]), len(ls.threads[i]), x.Sched.Term)})
+		}
+	}
+	if ls.extra != nil {
+		viol = append(viol, ls.extra(ls, x, per)...)
+	}
+	if len(ls.fifo) > 0 {
+		// a later waiter completed with an element while an earlier one is still blocked
+		for j, t := range ls.fifo {
+			if len(per[t]) == 0 {
+				continue
+			}
+			last := per[t][len(per[t])-1]
+			if last.Reply.K != vm.KArray && last.Reply.K != vm.KBulk {
+				continue
+			}
+			for _, e := range ls.fifo[:j] {
+				if len(per[e]) < len(ls.threads[e]) {
+					viol = append(viol, [2]string{"wake-order", fmt.Sprintf("connection %d (blocked later) received %s while connection %d (blocked earlier on the same key) is still waiting", t+1, last.Reply, e+1)})
+				}
 			}
 		}
+	}
+	if ls.noLin {
+		return append(viol, conservation(ls, x, per)...)
 	}
 	observed := make([][]string, len(per))
 	for i := range per {
@@ -171,7 +286,7 @@ func (ls *linScenario) check(x *Exec) [][2]string {
 	}
 	rec()
 	if found {
-		return nil
+		return viol
 	}
 	sort.Strings(seqOutcomes)
 	cmds := []string{}
@@ -185,7 +300,7 @@ func (ls *linScenario) check(x *Exec) [][2]string {
 	if len(seqOutcomes) > 0 {
 		detail += "; e.g. sequential: " + seqOutcomes[0]
 	}
-	return [][2]string{{"not-linearizable:" + strings.Join(cmds, "+"), detail}}
+	return append(viol, [2]string{"not-linearizable:" + strings.Join(cmds, "+"), detail})
 }
 
 func linFamilies() map[string][][]string {
@@ -267,5 +382,60 @@ func txScenarios(tier string) []*Scenario {
 	add("tx/EXEC(FLUSHDB)||SET+GET", [][]string{{"MULTI"}, {"FLUSHDB"}, {"SET", "a", "t"}, {"EXEC"}}, [][]string{{"SET", "a", "w"}, {"GET", "a"}})
 	add("tx/DISCARD||SET", [][]string{{"WATCH", "a"}, {"MULTI"}, {"SET", "a", "1"}, {"DISCARD"}, {"GET", "a"}}, [][]string{{"SET", "a", "2"}})
 	add("tx/EXEC(SELECT)||SET", [][]string{{"MULTI"}, {"SET", "a", "d0"}, {"SELECT", "1"}, {"SET", "a", "d1"}, {"EXEC"}}, [][]string{{"SET", "a", "w"}})
+	return out
+}
+
+// conservation: every pushed element was delivered to exactly one consumer or is still in its
+// list - never lost, never duplicated (elements are distinct within a scenario).
+func conservation(ls *linScenario, x *Exec, per [][]*Call) [][2]string {
+	pushed := map[string]int{}
+	for _, c := range ls.setup {
+		if n := strings.ToUpper(c[0]); n == "RPUSH" || n == "LPUSH" {
+			for _, e := range c[2:] {
+				pushed[e]++
+			}
+		}
+	}
+	got := map[string]int{}
+	for _, calls := range per {
+		for _, c := range calls {
+			n := strings.ToUpper(c.Args[0])
+			switch n {
+			case "RPUSH", "LPUSH":
+				if c.Reply.K == vm.KInt {
+					for _, e := range c.Args[2:] {
+						pushed[e]++
+					}
+				}
+			case "BLPOP", "BRPOP":
+				if c.Reply.K == vm.KArray && len(c.Reply.A) == 2 {
+					got[c.Reply.A[1].S]++
+				}
+			case "LPOP", "RPOP":
+				if c.Reply.K == vm.KBulk {
+					got[c.Reply.S]++
+				}
+				for _, e := range c.Reply.A {
+					got[e.S]++
+				}
+			case "BLMPOP", "LMPOP":
+				if c.Reply.K == vm.KArray && len(c.Reply.A) == 2 {
+					for _, e := range c.Reply.A[1].A {
+						got[e.S]++
+					}
+				}
+			}
+		}
+	}
+	// what is still stored (any list of the final dump)
+	for e := range pushed {
+		got[e] += strings.Count(x.Final, strconv.Quote(e))
+	}
+	var out [][2]string
+	for e, n := range pushed {
+		if got[e] != n {
+			out = append(out, [2]string{"conservation", fmt.Sprintf("element %q was pushed %d time(s) but is accounted for %d time(s) (delivered + remaining); final state %s", e, n, got[e], x.Final)})
+		}
+	}
 	return out
 }
